@@ -319,6 +319,23 @@ def run(ctx):
             if desc and desc[0].startswith("driven"):
                 systems.append((state, desc, False))
                 break
+    # whatever the seed: at least one system with a force law in compliance form, one with products of inertia, one closed chain, one point-mass system
+    wanted = {"compliance form": lambda d: "spring-c" in d, "products of inertia": lambda d: "products of inertia" in d, "closed chain": lambda d: "closure" in d,
+              "point masses": lambda d: any(str(x).startswith("pm") for x in d)}
+    for what, has in wanted.items():
+        if any(has(d) for _, d, _ in systems):
+            continue
+        for _ in range(400):
+            state = rng.getstate()
+            try:
+                with warnings.catch_warnings(), _quiet():
+                    warnings.simplefilter("ignore")
+                    _, desc = gen_system(rng)
+            except AssertionError:
+                continue
+            if has(desc):
+                systems.append((state, desc, False))
+                break
     # the fast two-bar pendulum with a coarse step (Newton may fail there: only converged steps may be stored)
     state = rng.getstate()
     systems.append((state, ["fast two-bar revolute pendulum"], True))
